@@ -55,6 +55,25 @@ KERNEL['C11'] = {
     'tech': 'symbolic execution of the real connect()/run() with z3 (own executor) + reference monitor',
 }
 
+KERNEL['C15'] = {
+    'text': 'through World.start() (real init_and_get_adapter, LocalProxy.init, extract_version, adapters) and a 3-step run next to a current-version twin: for every signature kind x number of version components x configured api_version kind x type presence, with every version component an unbounded symbolic int, z3 decides rejection <=> (version >= 4 or mismatch with the configured version or v3 claimed without v3 signatures), step arity, setup_done delivery, time_resolution passing, type defaulting, and equality of the (time, inputs) sequence with the twin',
+    'ref': 'DESIGN.md section 5 C15',
+    'note': 'version strings are structured objects (1-3 symbolic components) whose split/int go through a symbolic-aware int bound in mosaik.proxies/mosaik.adapters; malformed strings and remote simulators are outside; time-based old-API simulators only',
+    'tech': 'symbolic execution of the real Python code with z3 (own executor); version components as unbounded symbolic ints',
+}
+KERNEL['C13'] = {
+    'text': 'system runs of the real scheduler in which one simulator sends one malformed reply at a solver-chosen step ordinal (next step t+delta with delta <= 0 symbolic, non-int next step, None from a time-based simulator, output time t-eps with eps >= 1 symbolic): on every path run() must raise a SimulationError whose text contains the simulator id and no step request may follow the delivery of the malformed reply; all reply orders',
+    'ref': 'DESIGN.md section 5 C13',
+    'note': 'N=2 (thorough 3), K=3, until=3, exactly one malformed reply; bool next steps not demanded to be rejected',
+    'tech': SYS_TECH,
+}
+KERNEL['C09'] = {
+    'text': 'system runs of weak loops (2- and 3-simulator loops, nested group so the loop tier is deeper, loop plus observer) with max_loop_iterations = M an unbounded symbolic int: on every path no simulator performs a sub-step with index >= M, a loop that demands more makes run() raise a SimulationError naming a simulator that exceeded the bound, a loop that settles is never interrupted and no demanded step is lost (reference demand bookkeeping)',
+    'ref': 'DESIGN.md section 5 C09',
+    'note': 'loop participants are event-based without self-steps (one hybrid variant), K <= 4-5 sub-steps per simulator, until=2; all reply orders (D=0)',
+    'tech': SYS_TECH,
+}
+
 NOT_APPLICABLE = {}
 
 
